@@ -160,6 +160,19 @@ func runC04(c *core.Ctx) {
 			cases = append(cases, cs{"pq", [][]byte{[]byte("1"), []byte("0"), []byte(text)}, text})
 		}
 	}
+	// the small-scope and scale families and the constant-site matrices: positions of every node
+	for _, k := range SmallScopeLight() {
+		cases = append(cases, cs{"pq", [][]byte{[]byte("1"), []byte("0"), []byte(k.Query)}, k.Query})
+	}
+	for _, k := range ScaleDocsUpTo(300, 4097) {
+		cases = append(cases, cs{"pq", [][]byte{[]byte("1"), []byte("0"), []byte(k.Query)}, k.Query})
+	}
+	for _, q := range ConstSitesQuery() {
+		cases = append(cases, cs{"pq", [][]byte{[]byte("1"), []byte("0"), []byte(q)}, q})
+	}
+	for _, t := range append(append(schemaSmallScope(), ConstSites()...), ScaleSchemasUpTo(300, 4097)...) {
+		cases = append(cases, cs{"ps", [][]byte{[]byte("1"), []byte("0"), []byte("0"), []byte(t)}, t})
+	}
 	var nerr int64
 	c.Pool.ParFor(len(cases), func(w, i int) {
 		k := cases[i]
@@ -303,6 +316,8 @@ func runC04(c *core.Ctx) {
 		}
 	})
 	vcases := GenValidationCases(c, nSch/60+4, 20, nil)
+	vcases = append(vcases, SmallScopeLight()...)
+	vcases = append(vcases, ScaleDocsUpTo(300, 4097)...)
 	c.Pool.ParFor(len(vcases), func(w, i int) {
 		k := vcases[i]
 		sch, err := loadImpl(k.Srcs...)
